@@ -107,6 +107,10 @@ func (p *MultilineAction) Do(event *pipeline.Event) pipeline.ActionResult {
 		p.logger.Fatalf("wrong event format, it doesn't contain log field: %s", event.Root.EncodeToString())
 		panic("_")
 	}
+	if len(logFragment) < 2 {
+		// log field isn't a string (its escaped form has no quotes), there is nothing to join
+		return pipeline.ActionPass
+	}
 
 	// docker splits long logs by 16kb chunks, so let's join them
 	// look ahead to ensure we won't throw events longer than SplitEventSize
@@ -115,7 +119,7 @@ func (p *MultilineAction) Do(event *pipeline.Event) pipeline.ActionResult {
 	predictedLen := p.eventSize + predictionLookahead
 	shouldSplit := predictedLen > p.config.SplitEventSize
 	logFragmentLen := len(logFragment)
-	isEnd := logFragment[logFragmentLen-3:logFragmentLen-1] == newLine
+	isEnd := logFragmentLen >= 3 && logFragment[logFragmentLen-3:logFragmentLen-1] == newLine
 	if !isEnd && !shouldSplit {
 		sizeAfterAppend := len(p.eventBuf) + len(logFragment)
 		// check buffer size before append
